@@ -12,7 +12,9 @@ import (
 	"fmt"
 	"io/fs"
 	"os"
+	"os/exec"
 	"path/filepath"
+	"runtime"
 	"sort"
 	"strings"
 	"testing"
@@ -74,15 +76,15 @@ type c18File struct {
 
 type C18Case struct {
 	DirExists   bool              `json:"dir_exists"`
-	Factory     map[string]string `json:"factory"`      // template path -> intact | absent | trunc:<n> | shorter | same | longer
-	AbsentDirs  []string          `json:"absent_dirs"`  // of hidi-config/factory, .../gamepad, .../keyboard
-	User        []c18File         `json:"user"`         // arbitrary files below hidi-config/user
-	HidiToml    *[]byte           `json:"hidi_toml"`    // nil: absent
-	Blacklist   *[]byte           `json:"blacklist"`    // nil: absent
-	Extra       []c18File         `json:"extra"`        // other files in hidi-config (not below factory/ or user/)
+	Factory     map[string]string `json:"factory"`     // template path -> intact | absent | trunc:<n> | shorter | same | longer
+	AbsentDirs  []string          `json:"absent_dirs"` // of hidi-config/factory, .../gamepad, .../keyboard
+	User        []c18File         `json:"user"`        // arbitrary files below hidi-config/user
+	HidiToml    *[]byte           `json:"hidi_toml"`   // nil: absent
+	Blacklist   *[]byte           `json:"blacklist"`   // nil: absent
+	Extra       []c18File         `json:"extra"`       // other files in hidi-config (not below factory/ or user/)
 	Reruns      int               `json:"reruns"`
-	CrashKind   string            `json:"crash_kind"`   // "" | "create" | "update": the state left by an interrupted earlier run
-	CrashAfter  int               `json:"crash_after"`  // index into the walk: entries before it are complete
+	CrashKind   string            `json:"crash_kind"`    // "" | "create" | "update": the state left by an interrupted earlier run
+	CrashAfter  int               `json:"crash_after"`   // index into the walk: entries before it are complete
 	CrashAtByte int               `json:"crash_at_byte"` // the entry at CrashAfter is a file cut at this byte (if it is a file)
 	// CrashRemoved: (update crash) the entry at CrashAfter had been removed and not yet created again when the run stopped
 	CrashRemoved bool `json:"crash_removed,omitempty"`
@@ -90,6 +92,17 @@ type C18Case struct {
 	// (the user "copied" it with cp -l / ln and then edited it in place, which makes the factory file count as modified),
 	// "sym" = the factory path is a symbolic link to the user file
 	Links []c18Link `json:"links,omitempty"`
+	// Siblings: entries next to factory files whose names derive from theirs (editor backups, leftovers of an interrupted
+	// save or of an interrupted earlier upkeep run, whatever way that run writes its files): "<file>.tmp", "<file>~",
+	// ".<file>.swp", ... as a file or as a directory. They are "extra files": nothing is owed to them, the factory clauses
+	// and the protected files are owed as always.
+	Siblings []c18Sibling `json:"siblings,omitempty"`
+}
+
+type c18Sibling struct {
+	Path string `json:"path"`
+	Dir  bool   `json:"dir,omitempty"`
+	Data []byte `json:"data,omitempty"`
 }
 
 type c18Link struct {
@@ -296,6 +309,16 @@ func buildC18(c *C18Case) error {
 			}
 		}
 	}
+	for _, sb := range c.Siblings {
+		if st, err := os.Stat(filepath.Dir(sb.Path)); err != nil || !st.IsDir() {
+			continue // its directory is absent in this case
+		}
+		if sb.Dir {
+			_ = os.Mkdir(sb.Path, 0o777)
+		} else {
+			_ = os.WriteFile(sb.Path, sb.Data, 0o666)
+		}
+	}
 	if c.CrashKind == "update" {
 		// an earlier upkeep run over this very state was interrupted: factory files before CrashAfter are already
 		// restored, the one at CrashAfter was opened with truncation and cut at a byte, the rest is as above
@@ -437,6 +460,9 @@ func checkC18(c C18Case) (nontrivial bool, v *harness.Violation) {
 		nontrivial = true
 		harness.Classify("crash state: " + c.CrashKind)
 	}
+	if len(c.Siblings) > 0 {
+		harness.Classify("backup / temporary entries next to factory files")
+	}
 	if !c.DirExists && c.CrashKind == "" {
 		harness.Classify("first start (no directory)")
 	}
@@ -554,6 +580,23 @@ func genC18(t *rapid.T) C18Case {
 		c.Links = append(c.Links, c18Link{Kind: rapid.SampledFrom([]string{"hard", "hard", "sym", "dangling", "dangling-dir", "dir-into-user", "dir-dangling"}).Draw(t, "linkKind"), Factory: f.Path,
 			User: "hidi-config/user/keyboard/my_copy.toml", Data: append([]byte("# my own version\n"), genBytes(t, "linkedData")...)})
 	}
+	if rapid.IntRange(0, 3).Draw(t, "siblings") == 0 {
+		for i := rapid.IntRange(1, 3).Draw(t, "nSiblings"); i > 0; i-- {
+			f := files[rapid.IntRange(0, len(files)-1).Draw(t, "siblingOf")]
+			dir, base := filepath.Dir(f.Path), filepath.Base(f.Path)
+			form := rapid.SampledFrom([]string{"%s.tmp", "%s.tmp", "%s~", "%s.bak", "%s.new", "%s.part", ".%s.swp", ".%s.tmp", "%s.lock", "#%s#", "%s.orig"}).Draw(t, "siblingForm")
+			sb := c18Sibling{Path: filepath.Join(dir, fmt.Sprintf(form, base)), Dir: rapid.IntRange(0, 5).Draw(t, "siblingDir") == 0}
+			if !sb.Dir {
+				switch rapid.IntRange(0, 2).Draw(t, "siblingData") {
+				case 0:
+					sb.Data = append([]byte{}, f.Data[:rapid.IntRange(0, len(f.Data)).Draw(t, "siblingCut")]...) // a cut copy of the template
+				case 1:
+					sb.Data = genBytes(t, "sibling")
+				}
+			}
+			c.Siblings = append(c.Siblings, sb)
+		}
+	}
 	if rapid.IntRange(0, 3).Draw(t, "hasHidi") > 0 {
 		b := genBytes(t, "hidi")
 		c.HidiToml = &b
@@ -571,6 +614,150 @@ func genC18(t *rapid.T) C18Case {
 }
 
 func TestC18(t *testing.T) { harness.ReplayOrRapid(t, harness.NewRun(t, "C18"), checkC18, genC18) }
+
+// ---------------------------------------------------------------- C18, interrupted runs for real
+//
+// TestC18Kill does not construct the state an interrupted run "must" have left (that presumes how the run writes its
+// files); it interrupts a real run. The fixture is built, then a CHILD process (this test binary, TestC18Child) runs
+// updateHIDIConfiguration() under `strace -f -e inject=<file-changing syscalls>:signal=SIGKILL:when=N`: the N-th such
+// syscall of the thread executing the run is never executed, the process dies there - the crash point is whatever the
+// code under test was doing, however it does it (in place, via temporary files and rename, ...). Then upkeep runs again,
+// in this process, and owes: every factory file present and identical to its template; every protected file that existed
+// before the interrupted run byte-identical; nothing new below user/. (A blacklist or hidi.toml that the interrupted run was
+// in the middle of creating is not asserted: the statement does not say what becomes of them.) N is drawn by rapid; cases in
+// which the child finished before its N-th syscall are counted as such and still checked (complete run + rerun).
+
+type C18KillCase struct {
+	C    C18Case `json:"c"`
+	Kill int     `json:"kill"` // the child's N-th file-changing syscall is replaced by SIGKILL
+}
+
+const c18KillSyscalls = "openat,open,creat,write,pwrite64,writev,rename,renameat,renameat2,unlink,unlinkat,mkdir,mkdirat,rmdir,ftruncate,truncate,link,linkat,symlink,symlinkat,fsync,fdatasync,fchmod,fchmodat,chmod"
+
+func TestC18Child(t *testing.T) {
+	dir := os.Getenv("VERIF_C18_CHILD_DIR")
+	if dir == "" {
+		t.Skip("only meaningful as the child of TestC18Kill")
+	}
+	runtime.LockOSThread()
+	if err := os.Chdir(dir); err != nil {
+		os.Exit(3)
+	}
+	mark := os.Getenv("VERIF_C18_CHILD_MARK")
+	_ = os.WriteFile(mark+".started", nil, 0o666)
+	err := updateHIDIConfiguration()
+	if err != nil {
+		_ = os.WriteFile(mark+".error", []byte(err.Error()), 0o666)
+	}
+	_ = os.WriteFile(mark+".finished", nil, 0o666)
+	os.Exit(0)
+}
+
+func checkC18Kill(kc C18KillCase) (nontrivial bool, v *harness.Violation) {
+	c := kc.C
+	strace, err := exec.LookPath("strace")
+	if err != nil {
+		harness.Classify("strace not available: part skipped")
+		return false, nil
+	}
+	root, err := os.MkdirTemp(".", "c18k-")
+	if err != nil {
+		return false, harness.NewViolation("C18", "harness", "", "mkdtemp: %v", err)
+	}
+	root, _ = filepath.Abs(root)
+	defer os.RemoveAll(root)
+	work := filepath.Join(root, "work")
+	_ = os.Mkdir(work, 0o777)
+	mark := filepath.Join(root, "mark")
+	inFlight := false
+	herr := harness.InDir(work, func() {
+		if err := buildC18(&c); err != nil {
+			v = harness.NewViolation("C18", "harness", "", "cannot build the fixture: %v", err)
+			return
+		}
+		before := snapshot(".")
+		existed := len(before) > 1
+		exe, _ := os.Executable()
+		cmd := exec.Command(strace, "-f", "-qq", "-o", "/dev/null", "-e", "trace="+c18KillSyscalls,
+			"-e", fmt.Sprintf("inject=%s:signal=SIGKILL:when=%d", c18KillSyscalls, kc.Kill),
+			exe, "-test.run", "^TestC18Child$", "-test.timeout", "60s")
+		cmd.Env = append(os.Environ(), "VERIF_C18_CHILD_DIR="+work, "VERIF_C18_CHILD_MARK="+mark, "GOMAXPROCS=1")
+		out, _ := cmd.CombinedOutput()
+		_, started := os.Stat(mark + ".started")
+		_, finished := os.Stat(mark + ".finished")
+		if msg, err := os.ReadFile(mark + ".error"); err == nil {
+			v = harness.NewViolation("C18", "upkeep-error", "child", "updateHIDIConfiguration failed in the child process: %s", msg)
+			return
+		}
+		switch {
+		case started != nil:
+			harness.Classify("child killed before the run began")
+		case finished != nil:
+			harness.Classify("run killed in flight")
+			inFlight = true
+		default:
+			harness.Classify("run finished before its N-th syscall")
+		}
+		_ = out
+		mid := snapshot(".")
+		v = harness.Guard("C18", "panic", func() *harness.Violation {
+			if err := updateHIDIConfiguration(); err != nil {
+				return harness.NewViolation("C18", "upkeep-error", "after-kill", "the run after an interrupted run (killed at its file-changing syscall #%d) failed: %v\nstate left by the interrupted run vs before: %s", kc.Kill, err, diffSnap(before, mid))
+			}
+			after := snapshot(".")
+			for _, e := range factoryTemplates {
+				if e.Dir {
+					if after[e.Path+"/"] != "dir" {
+						return harness.NewViolation("C18", "factory-dir-missing", "after-kill", "%s does not exist after the run that followed an interrupted run (killed at syscall #%d)", e.Path, kc.Kill)
+					}
+					continue
+				}
+				want := fmt.Sprintf("%d:%x", len(e.Data), sha256.Sum256(e.Data))
+				if got, ok := after[e.Path]; !ok || got != want {
+					return harness.NewViolation("C18", "factory-file-not-restored", "after-kill",
+						"%s is %s after the run that followed an interrupted run (killed at its file-changing syscall #%d; state before: %q; the interrupted run left it as %s); template: %s",
+						e.Path, orAbsent(got), kc.Kill, c.Factory[e.Path], orAbsent(mid[e.Path]), want)
+				}
+			}
+			if existed {
+				for p, h := range before {
+					protected := strings.HasPrefix(p, "hidi-config/user/") || p == "hidi-config/hidi.toml" || p == "hidi-config/device blacklist.txt"
+					if protected && after[p] != h {
+						return harness.NewViolation("C18", "protected-file-touched", protectedKind(p)+"/after-kill", "%s was %s before the interrupted run and is %s after the following run (after the interrupted one: %s)", p, h, orAbsent(after[p]), orAbsent(mid[p]))
+					}
+				}
+				for p := range after {
+					if strings.HasPrefix(p, "hidi-config/user/") {
+						if _, ok := before[p]; !ok {
+							return harness.NewViolation("C18", "user-tree-changed", "after-kill", "%s appeared below user/", p)
+						}
+					}
+				}
+			}
+			if err := updateHIDIConfiguration(); err != nil {
+				return harness.NewViolation("C18", "rerun-error", "after-kill", "a third run failed: %v", err)
+			}
+			if d := diffSnap(after, snapshot(".")); d != "" {
+				return harness.NewViolation("C18", "not-idempotent", "after-kill", "a third run changed the tree: %s", d)
+			}
+			return nil
+		})
+	})
+	if herr != nil {
+		return false, harness.NewViolation("C18", "harness", "", "chdir: %v", herr)
+	}
+	return inFlight, v
+}
+
+func genC18Kill(t *rapid.T) C18KillCase {
+	c := genC18(t)
+	c.CrashKind, c.Reruns = "", 0
+	return C18KillCase{C: c, Kill: rapid.IntRange(10, 70).Draw(t, "kill")}
+}
+
+func TestC18Kill(t *testing.T) {
+	harness.ReplayOrRapid(t, harness.NewRun(t, "C18"), checkC18Kill, genC18Kill)
+}
 
 // TestC18Templates: the built-in templates are the files of cmd/hidi/hidi-config in the source tree.
 func TestC18Templates(t *testing.T) {
